@@ -49,7 +49,7 @@ def value(kind, n=3, positive=False):
         "int": lambda: 2, "complex": lambda: 1.5 + 0.1j, "np_float64": lambda: np.float64(1.47),
         "np_int64": lambda: np.int64(2), "np_complex128": lambda: np.complex128(1.5 + 0.1j),
         "complex_neg": lambda: 1.5 - 0.1j, "np_complex_neg": lambda: np.complex128(1.5 - 0.1j),
-        "zero_d_array": lambda: np.array(1.47), "np_float32": lambda: np.float32(1.5),
+        "zero_d_array": lambda: np.array(1.47), "np_float32": lambda: np.float32(1.59),     # not a dyadic number: its decimal text is not its value
         "none_explicit": lambda: None, "list": lambda: list(base), "tuple": lambda: tuple(base),
         "array1d": lambda: np.array(base), "list_of_np": lambda: [np.float64(b) for b in base],
         "prior_half_open": lambda: prior.Uniform(0, np.inf), "prior_unbounded": lambda: prior.Uniform(-np.inf, np.inf),
@@ -285,6 +285,27 @@ def run(ctx):
             ("exact_model", lambda: ExactModel(Sphere(n=prior.Gaussian(1.5, 0.1), r=0.5, center=C3), medium_index=1.33,
                                                illum_wavelen=0.66, illum_polarization=(1, 0), noise_sd=0.1)),
         ]
+        # ties across the sections of a model (a scatterer parameter with the scaling, a theory parameter or the
+        # noise): only add_tie can make them, and they must come back
+        def tied(make, names, new_name=None):
+            def mk():
+                m_ = make()
+                m_.add_tie(names, new_name=new_name)
+                return m_
+            return mk
+        U51 = lambda: prior.Uniform(0.5, 1.0)
+        extra += [
+            ("tie_r_alpha", tied(lambda: AlphaModel(Sphere(n=1.59, r=U51(), center=C3), alpha=U51(), medium_index=1.33,
+                                                    illum_wavelen=0.66, illum_polarization=(1, 0), noise_sd=0.1, theory=Mie()),
+                                 ["r", "alpha"])),
+            ("tie_r_lens_angle_named", tied(lambda: AlphaModel(Sphere(n=prior.Uniform(1.4, 1.6), r=U51(), center=C3), alpha=0.9,
+                                                               theory=MieLens(lens_angle=U51()), medium_index=1.33, illum_wavelen=0.66,
+                                                               illum_polarization=(1, 0), noise_sd=0.1),
+                                            ["lens_angle", "r"], "shared")),
+            ("tie_r_noise_alpha", tied(lambda: AlphaModel(Sphere(n=1.59, r=U51(), center=[U51(), 2.0, 3.0]), alpha=U51(), medium_index=1.33,
+                                                          illum_wavelen=0.66, illum_polarization=(1, 0), noise_sd=U51(), theory=Mie()),
+                                       ["alpha", "noise_sd", "center.0"])),
+        ]
         # three consecutive cycles each, and the whole list twice: what was loaded before (a constrained model
         # in particular) must not show in what is loaded next
         for rnd, (name, mk) in enumerate(extra + extra):
@@ -296,9 +317,22 @@ def run(ctx):
                     m2 = m
                     for cyc in range(3):
                         m2 = roundtrip(m2, "stream" if cyc != 1 else "file", tmp, 0)
+                        if cyc == 0:
+                            t_first = dump_text(m2)
+                # (the text of a model tied by add_tie differs from its reloads' by YAML anchors only - which equal
+                # floats are one Python object; from the first reload on it is fixed)
                 same = (list(m.parameters) == list(m2.parameters) and type(m2.theory) is type(m.theory)
-                        and norm(m.scatterer) == norm(m2.scatterer) and dump_text(m) == dump_text(m2)
+                        and norm(m.scatterer) == norm(m2.scatterer)
+                        and (t_first if name.startswith("tie_") else dump_text(m)) == dump_text(m2)
                         and not any("inconsisten" in str(x.message) for x in w))
+                if same and name.startswith("tie_"):
+                    # same value-to-place mapping: one value vector, the same scatterer, theory and optics
+                    vals = {nm: 0.6 + 0.07 * i_ for i_, nm in enumerate(m.parameters)}
+                    same = (norm(m.scatterer_from_parameters(vals)) == norm(m2.scatterer_from_parameters(vals))
+                            and norm(m.theory_from_parameters(vals)) == norm(m2.theory_from_parameters(vals))
+                            and norm(m._find_optics([vals[nm] for nm in m.parameters], None))
+                            == norm(m2._find_optics([vals[nm] for nm in m2.parameters], None))
+                            and len(m.parameters) < 3 + (name == "tie_r_lens_angle_named"))
                 if name == "constraint":
                     same = same and len(m2.constraints) == 1 and m2.constraints[0].fraction == 0.2
                 else:
